@@ -237,7 +237,12 @@ def rule_sizes(chk: Check, model, rid: str):
     oks = len(mins) == 1 and len(maxs) == 1
     if oks:
         a_in, a_out = mins[0].args[0], maxs[0].args[0]
-        oks = a_in[0] == "attr" and a_in[2] == "seq" and a_in[1][0] == "index" and a_in[1][1][0] == "attr" and a_in[1][1][2] == "windows" and _axes(mins[0]) == {2, 4} \
+        def _whole_window(x):  # <timings>.windows[name] or the value of an iteration over <timings>.windows.items(): one whole window entry table
+            if x[0] != "index":
+                return False
+            b = x[1]
+            return (b[0] == "attr" and b[2] == "windows") or (b[0] == "elem" and x[2] == T.ONE and b[1][0] == "call" and T.call_name(b[1]).endswith(".windows.items"))
+        oks = a_in[0] == "attr" and a_in[2] == "seq" and _whole_window(a_in[1]) and _axes(mins[0]) == {2, 4} \
             and a_out[0] == "attr" and a_out[2] == "seq" and a_out[1][0] == "index" and _axes(maxs[0]) == {2}
     chk.add(rid, "ring spread: oldest window entry over all slots and the whole window vs newest output over all slots", bool(oks),
             f"oldest needed = {T.show(mins[0].term)[-120:] if mins else None}, newest written = {T.show(maxs[0].term)[-100:] if maxs else None}; expected amin(windows[input].seq, axis=(2, 4)) "
